@@ -81,6 +81,9 @@ pub proof fn lemma_fix_attr(a: Seq<u8>, idx: u16, n: u32, b: Seq<u8>)
 // some of the first k local variables carries a descriptor (-> LocalVariableTable) / a signature (-> LocalVariableTypeTable)
 pub open spec fn has_descriptor(l: Seq<Lv>, k: int) -> bool { exists|j: int| 0 <= j < k && j < l.len() && (#[trigger] l[j]).descriptor is Some }
 pub open spec fn has_signature(l: Seq<Lv>, k: int) -> bool { exists|j: int| 0 <= j < k && j < l.len() && (#[trigger] l[j]).signature is Some }
+// the counts written in front of the two tables (unit warms takes them as the precondition of the table bodies)
+pub open spec fn count_desc(l: Seq<Lv>, k: int) -> int decreases k { if 0 < k <= l.len() { count_desc(l, k - 1) + (if l[k - 1].descriptor is Some { 1int } else { 0int }) } else { 0 } }
+pub open spec fn count_sign(l: Seq<Lv>, k: int) -> int decreases k { if 0 < k <= l.len() { count_sign(l, k - 1) + (if l[k - 1].signature is Some { 1int } else { 0int }) } else { 0 } }
 pub proof fn lemma_attrs_empty() ensures attrs_seq(Seq::<u8>::empty(), 0) { reveal_with_fuel(attrs_seq, 1); }
 // TRUSTED: write_attribute_any carries the contract that unit wattrs proves for write_attribute with an arbitrary closure (the closure argument of the call site is dropped)
 #[verifier::external_body]
@@ -360,7 +363,9 @@ def build_regions(u):
             extra_rewrites=[(r'for lv in local_variables\b', 'for lv in iter: local_variables')],
             block_loops={r'for lv in iter: local_variables': dict(invariant=[
                 C('C02.write_code_attributes.inv.counting', 'desc <= iter.index@ && sign <= iter.index@ && iter.snapshot@.remaining().len() == local_variables@.len() && local_variables@.len() < 0x1_0000_0000 && attrs_seq(buffer@, *attribute_count as nat) && *attribute_count == *old(attribute_count) && buffer@ == old(buffer)@ '
-                  '&& (desc > 0) == has_descriptor(local_variables@, iter.index@ as int) && (sign > 0) == has_signature(local_variables@, iter.index@ as int)')],
+                  '&& (desc > 0) == has_descriptor(local_variables@, iter.index@ as int) && (sign > 0) == has_signature(local_variables@, iter.index@ as int)'),
+                C('C02.write_code_attributes.inv.the-two-table-counts-are-the-numbers-of-variables-with-a-descriptor-and-with-a-signature',
+                  'desc == count_desc(local_variables@, iter.index@ as int) && sign == count_sign(local_variables@, iter.index@ as int)')],
                 body_start='proof { assert(lv == local_variables@[iter.index@ as int]); }')})
     f = s.cut_fn('write')
     body, mask = f['body'], code_mask(f['body'])
